@@ -322,6 +322,32 @@ Section Proofs.
     unfold C08.open_node, seq. rewrite (up78_noop s E7 E8).
     unfold C08.up810, seq, dyn. rewrite Etmp. cbn. rewrite Epl, Ed8. reflexivity.
   Qed.
+  (* ---------- any removal order of the old directories ---------- *)
+  (* os.RemoveAll unlinks directory entries in an order the file system decides.  The abstraction
+     keeps only HOW MANY entries are left, and the phase invariants do not constrain that number:
+     whatever subset of the old directory has been unlinked when the process dies -- any order,
+     any prefix of it -- the disk is in Q1 (7->8) resp. Q3 (8->10), and every restart from there,
+     crashed again any number of times, completes the upgrade. *)
+  Theorem recovers_from_inv : forall s0, Inv s0 -> forall s, reach open_node s0 s ->
+    exists f, result open_node s = Some f /\ upgraded f = true.
+  Proof.
+    intros s0 H0 s Hr.
+    destruct (crash_any_number open_node Inv Q4 s0 H0 open_triple s Hr) as [_ (f & Hf & HQ)].
+    exists f. split; [exact Hf|apply Q4_upgraded; exact HQ].
+  Qed.
+
+  Definition after_rename8 (left : option nat) (tmpfile : bool) : node :=
+    {| d7 := left; t8 := None; d8 := Some n8; pl := false; pltmp := tmpfile; t10 := None; d10 := None |}.
+  Definition after_rename10 (left : option nat) : node :=
+    {| d7 := None; t8 := None; d8 := left; pl := true; pltmp := false; t10 := None; d10 := Some whole10 |}.
+
+  Theorem any_remainder_of_v7 : forall left tmpfile s, reach open_node (after_rename8 left tmpfile) s ->
+    exists f, result open_node s = Some f /\ upgraded f = true.
+  Proof. intros left tmpfile. apply recovers_from_inv. apply I1. repeat split. Qed.
+
+  Theorem any_remainder_of_v8 : forall left s, reach open_node (after_rename10 left) s ->
+    exists f, result open_node s = Some f /\ upgraded f = true.
+  Proof. intros left. apply recovers_from_inv. apply I3. repeat split. Qed.
 End Proofs.
 
 (* ---------- the snapshot that is upgraded is a newest one in (term, index, id) order ---------- *)
@@ -369,3 +395,13 @@ Theorem upgrade_crash_safe_v8_only : forall n8, n8 <> 0 ->
   forall s, reach (open_node n8) (init8 n8) s ->
   exists f, result (open_node n8) s = Some f /\ upgraded f = true.
 Proof. intros n8 H8. apply (upgrade_crash_safe_v8 1 n8); [discriminate|exact H8]. Qed.
+
+(* the statements about what is left of an old directory do not involve the v7 size *)
+Theorem any_remainder_of_v7_only : forall n8, n8 <> 0 -> forall left tmpfile s,
+  reach (open_node n8) (after_rename8 n8 left tmpfile) s ->
+  exists f, result (open_node n8) s = Some f /\ upgraded f = true.
+Proof. intros n8 H8. apply (any_remainder_of_v7 1 n8); [discriminate|exact H8]. Qed.
+Theorem any_remainder_of_v8_only : forall n8, n8 <> 0 -> forall left s,
+  reach (open_node n8) (after_rename10 left) s ->
+  exists f, result (open_node n8) s = Some f /\ upgraded f = true.
+Proof. intros n8 H8. apply (any_remainder_of_v8 1 n8); [discriminate|exact H8]. Qed.
